@@ -70,7 +70,8 @@ impl TryFrom<&Number> for usize {
             Number::BigInt(bigint) => bigint.parse::<usize>(),
             Number::Integer(int) => int.parse::<usize>(),
             Number::Byte(byte) => byte.parse::<usize>(),
-            Number::Float(float) => unreachable!("not sure how to round {float}"),
+            // a float never denotes a position: its text is not an unsigned integer, which is the error this conversion reports
+            Number::Float(float) => float.parse::<usize>(),
         }
     }
 }
